@@ -315,7 +315,7 @@ func minimalPatch(P, A, B *JV) bool {
 	return acc
 }
 
-const nCreateVals = 8
+const nCreateVals = 16
 
 func createVal(i int, p string) *JV {
 	n := func(k int) *JV { return symNum(p + "n" + itoa(k)) }
@@ -336,6 +336,22 @@ func createVal(i int, p string) *JV {
 		return jBool(true)
 	case 7:
 		return jNull()
+	case 8:
+		return jArr(jObj().with("k", n(0)).with("j", n(1)))
+	case 9:
+		return jArr(jObj().with("k", n(0)))
+	case 10:
+		return jArr(n(0), n(1))
+	case 11:
+		return jArr(jArr(jObj().with("k", n(0)).with("j", n(1))))
+	case 12:
+		return jArr(jArr(jObj().with("k", n(0))))
+	case 13:
+		return jArr(jObj().with("k", jObj().with("i", n(0)).with("j", n(1))))
+	case 14:
+		return jArr(jObj().with("k", jObj().with("i", n(0))))
+	case 15:
+		return jArr(jObj().with("k", jNull()))
 	}
 	panic("createVal")
 }
@@ -344,7 +360,7 @@ func genCreateObj(p string, maxM, nVals int) *JV {
 	o := jObj()
 	m := vx.Choose(p+"m", maxM+1)
 	for k := 0; k < m; k++ {
-		o.withB([]byte{symLetter(p + "k" + itoa(k))}, createVal(vx.Choose(p+"v"+itoa(k), nVals), p+itoa(k)+"."))
+		o.withB([]byte{symLetter(p + "k" + itoa(k))}, createVal(chooseMask(p+"v"+itoa(k), nVals, nCreateVals), p+itoa(k)+"."))
 	}
 	vx.Assume(!o.hasDupKeys())
 	return o
